@@ -567,3 +567,34 @@ impl<R: Read, TSpec> Iterator for TagIterator<R, TSpec>
         next_item.map(|r| r.map(|t| t.0))
     }
 }
+
+/// Read-only snapshot of the iterator's internal state (verification hook, add-only).
+#[cfg(feature = "verif-hooks")]
+#[derive(Clone, Debug)]
+pub struct VerifIterState {
+    pub buffer_offset: Option<usize>,
+    pub internal_buffer_position: usize,
+    pub buffered_byte_length: usize,
+    pub capacity: usize,
+    /// (id, size if known, tag_start, data_start) for each open master, outermost first
+    pub stack: Vec<(u64, Option<usize>, usize, usize)>,
+    pub queue_len: usize,
+    pub has_determined_doc_path: bool,
+}
+
+#[cfg(feature = "verif-hooks")]
+impl<R: Read, TSpec> TagIterator<R, TSpec>
+    where TSpec: EbmlSpecification<TSpec> + EbmlTag<TSpec> + Clone
+{
+    pub fn verif_state(&self) -> VerifIterState {
+        VerifIterState {
+            buffer_offset: self.buffer_offset,
+            internal_buffer_position: self.internal_buffer_position,
+            buffered_byte_length: self.buffered_byte_length,
+            capacity: self.buffer.len(),
+            stack: self.tag_stack.iter().map(|t| (t.tag.get_id(), match t.size { Known(s) => Some(s), Unknown => None }, t.tag_start, t.data_start)).collect(),
+            queue_len: self.emission_queue.len(),
+            has_determined_doc_path: self.has_determined_doc_path,
+        }
+    }
+}
